@@ -77,6 +77,10 @@ type DB struct {
 	chkMu     sync.RWMutex  // checkpoint lock
 	opened    bool          // true if Open() was called and Close() not yet called
 	syncState syncState
+
+	// baselinePending is set while a local state reset has removed the local LTX
+	// files but has not yet fetched the replica's newest file as the new baseline.
+	baselinePending bool
 	syncDiag  diagState
 
 	// last file info for each level
@@ -544,15 +548,20 @@ func (db *DB) ResetLocalState(ctx context.Context) error {
 	// older position.
 	db.mu.Lock()
 	db.syncState = syncState{}
+	db.baselinePending = db.Replica != nil && db.Replica.Client != nil
 	db.mu.Unlock()
 
 	// Local TXIDs must not start over below what the replica already holds:
 	// re-establish the baseline from the replica, as init does for a database that
-	// is behind its replica.
+	// is behind its replica. If the replica cannot be reached now, the next sync
+	// completes this step before it copies anything (see newSyncExecutor).
 	if db.Replica != nil && db.Replica.Client != nil {
 		if err := db.checkDatabaseBehindReplica(ctx); err != nil {
 			return fmt.Errorf("check database behind replica: %w", err)
 		}
+		db.mu.Lock()
+		db.baselinePending = false
+		db.mu.Unlock()
 	}
 
 	db.Logger.Info("local state reset complete, next sync will create fresh snapshot")
@@ -1986,6 +1995,15 @@ func (db *DB) newSyncExecutor(ctx context.Context) (*syncExecutor, error) {
 		return nil, err
 	} else if db.db == nil {
 		return nil, nil
+	}
+
+	// A local state reset whose baseline fetch failed is completed before anything
+	// is synced, or local TXIDs would start over at or below the replica's.
+	if db.baselinePending {
+		if err := db.checkDatabaseBehindReplica(ctx); err != nil {
+			return nil, fmt.Errorf("check database behind replica: %w", err)
+		}
+		db.baselinePending = false
 	}
 
 	pos, err := db.Pos()
